@@ -1055,7 +1055,20 @@ def _sb_solve(i):
     return is_sat, grid_got(i["n"], i["n"], arr)
 
 
-register("star_battle", _sb_gen, _sb_truth, _sb_solve)
+def _sb_check(i, got):
+    n, g, k = i["n"], i["g"], i["k"]
+    if any(v is not True and v is not False for v in got.values()):
+        return False
+    S = {tuple(map(int, kk.split(","))) for kk, v in got.items() if v}
+    if any(sum(1 for c in S if c[0] == t) != k or sum(1 for c in S if c[1] == t) != k for t in range(n)):
+        return False
+    nblocks = max(v for row in g for v in row) + 1
+    if any(sum(1 for (y, x) in S if g[y][x] == b) != k for b in range(nblocks)):
+        return False
+    return not any((y + dy, x + dx) in S for y, x in S for dy in (-1, 0, 1) for dx in (-1, 0, 1) if (dy, dx) != (0, 0))
+
+
+register("star_battle", _sb_gen, _sb_truth, _sb_solve, _sb_check)
 
 
 # ======================================================================================= loop puzzles on cell centres
@@ -1710,7 +1723,26 @@ def _cmp_solve(i):
     return is_sat, grid_got(i["h"], i["w"], arr)
 
 
-register("compass", _cmp_gen, _cmp_truth, _cmp_solve)
+def _cmp_check(i, got):
+    h, w, prob = i["h"], i["w"], i["prob"]
+    cells = allc(h, w)
+    L = {c: got.get(f"{c[0]},{c[1]}") for c in cells}
+    k = len(prob)
+    if any(type(v) is not int or not 0 <= v < k for v in L.values()):
+        return False
+    for t, (y, x, up, lf, dw, rg) in enumerate(prob):
+        if L[(y, x)] != t:
+            return False
+        reg = [c for c in cells if L[c] == t]
+        if not conn(reg):
+            return False
+        if (up >= 0 and sum(1 for c in reg if c[0] < y) != up) or (dw >= 0 and sum(1 for c in reg if c[0] > y) != dw) or \
+           (lf >= 0 and sum(1 for c in reg if c[1] < x) != lf) or (rg >= 0 and sum(1 for c in reg if c[1] > x) != rg):
+            return False
+    return True
+
+
+register("compass", _cmp_gen, _cmp_truth, _cmp_solve, _cmp_check)
 
 
 def _five_gen(rng, big):
